@@ -69,6 +69,8 @@ def strategy_case(draw):
     # operator of the iterative solvers is then applied band by band
     if cls == "laplace":
         case["band"] = draw(st.sampled_from([-1, -1, 1, 2]))
+    # the rank of the local solution is chosen by the residual (default) or by its Frobenius norm
+    case["trunc_norm"] = draw(st.sampled_from(["res", "res", "res", "fro"]))
     return case
 
 
@@ -208,6 +210,8 @@ def build_operands(T, ck, case):
             ck.label("x0_zero")
     if case.get("band", -1) >= 0:
         ck.label("band_diagonal")
+    if case.get("trunc_norm", "res") != "res":
+        ck.label("trunc_norm:" + case["trunc_norm"])
     if case.get("b_kind", "random") != "random":
         ck.label("b:" + case["b_kind"])
     if case.get("b_kind") == "unit_pair":
@@ -233,7 +237,7 @@ def execute(case):
     torch.manual_seed(case["lib_seed"])
     x = lib(lambda: T.solvers.amen_solve(A, b, x0=x0, eps=eps, preconditioner=case["prec"], max_full=case["max_full"],
                                         local_solver=case["local_solver"], use_cpp=False, verbose=False,
-                                        band_diagonal=case.get("band", -1),
+                                        band_diagonal=case.get("band", -1), trunc_norm=case.get("trunc_norm", "res"),
                                         local_iterations=case.get("gmres", [40, 2])[0], resets=case.get("gmres", [40, 2])[1]))
     if not ck.require(isinstance(x, T.TT) and not x.is_ttm and [int(n) for n in x.N] == list(N), "shape",
                       "solution kind/shape wrong: %s" % (getattr(x, "N", type(x)),)):
